@@ -1,5 +1,6 @@
 use crate::Args;
 
+pub mod c04;
 pub mod c05;
 pub mod ops;
 pub mod c14;
@@ -8,6 +9,7 @@ pub mod c15;
 
 pub fn run(args: &Args) -> i32 {
     match args.prop.as_str() {
+        "C04" => c04::run(args),
         "C05" => c05::run(args),
         "C01" | "C02" | "C03" | "C06" | "C09" => ops::run(args),
         "C14" => c14::run(args),
